@@ -1788,7 +1788,7 @@ def str_char_indices(m, a, ci):
     return ListIter([tup(pre[i], c) for i, c in enumerate(s.chars)])
 
 
-@reg('str::replace')
+@reg('str::replace', 'EcoString::replace', 'String::replace')
 def str_replace(m, a, ci):
     s = _s(m, a[0])
     to = _s(m, a[2])
